@@ -715,7 +715,13 @@ class EdgeQLSourceGenerator(codegen.SourceGenerator):
                         return
                 self.write(edgeql_quote.dollar_quote_literal(node.value))
                 return
-            self.write(repr(node.value))
+            # repr() would use Python-only escapes (e.g. '\x80', which the
+            # EdgeQL lexer rejects); write an EdgeQL literal and spell the
+            # remaining non-printable characters as \uXXXX.
+            self.write(_NON_PRINTABLE_RE.sub(
+                lambda m: f'\\u{ord(m.group(0)):04x}',
+                edgeql_quote.quote_literal(node.value),
+            ))
         else:
             self.write(node.value)
 
